@@ -8,8 +8,10 @@
    absence of other UB is Rust's guarantee for safe code.  The correspondence check runs
    the real crate with assertion hooks inside get_unchecked(_mut) / get_*_unchecked and
    checks the census of `unsafe` sites on every run.
-   OBLIGATIONS: C05_mutators_no_unchecked_access C05_readers_meet_preconditions C05_partial_iteration C05_ops_never_ub *)
+   OBLIGATIONS: C05_mutators_no_unchecked_access C05_readers_meet_preconditions C05_partial_iteration C05_ops_never_ub C05_arena_mutators_no_unchecked_access *)
 From BPT Require Import Common.Base Rust.Arena Rust.Tree Rust.Heap Rust.Readers Rust.Run Rust.NoUB.
+From BPT Require Import Rust.HeapOps.
+From BPT Require Extra.RustExtra2.
 
 Theorem C05_mutators_no_unchecked_access : forall (V : Type) (b : bstate V) k v z,
   no_ub (b_insert b k v) /\ no_ub (b_remove b z) /\ no_ub (b_get_mut_write b z v).
@@ -40,3 +42,8 @@ Theorem C05_ops_never_ub : forall (V : Type) (b : bstate V) (o : op V),
               | OTryRemove _ | OBatchInsert _ => False | _ => True end) ->
   snd (step b o) <> UUB.
 Proof. exact step_readers_no_ub. Qed.
+
+(* the arena-level mutators contain no unchecked access, on ANY heap *)
+Theorem C05_arena_mutators_no_unchecked_access : forall (V:Type) (h:heap V) k v z,
+  no_ub (insert_A h k v) /\ no_ub (remove_A h z) /\ no_ub (get_mut_write_A h z v).
+Proof. exact RustExtra2.arena_mutators_total. Qed.
